@@ -52,18 +52,28 @@ rows_b = st.lists(st.tuples(st.integers(0, 30), st.one_of(st.none(), st.integers
 AS_KINDS = ["int", "bind", "expr", "litcol", "int"]
 
 
-def _lo_spec():
-    val = st.one_of(
-        st.sampled_from([0, 1]),
-        st.integers(2, 12),
-        st.integers(1, 6),
-        st.integers(31, 60),
-        st.tuples(st.just("n"), st.sampled_from([-1, 0, 1, -2])).map(list),
-        st.tuples(st.just("f"), st.integers(1, 3)).map(list),
-        st.tuples(st.just("f"), st.integers(1, 3)).map(list),
-    )
-    spec = st.fixed_dictionaries({"v": val, "as": st.sampled_from(AS_KINDS), "split": st.integers(0, 5)})
-    return st.one_of(spec, spec, spec, st.none(), spec, spec)
+_LIMIT_TEMPLATES = ["k", "frac", "zero", "one", "big", "rel", "none", "k", "frac", "rel", "none"]
+_OFFSET_TEMPLATES = ["k", "frac", "one", "rel", "big", "k", "frac", "zero", "none", "k", "frac", "rel"]
+
+
+@st.composite
+def _lo_spec(draw, offset=False):
+    t = draw(st.sampled_from(_OFFSET_TEMPLATES if offset else _LIMIT_TEMPLATES))
+    if t == "none":
+        return None
+    if t == "k":
+        v = draw(st.integers(1, 12))
+    elif t == "frac":
+        v = ["f", draw(st.integers(1, 3))]
+    elif t == "zero":
+        v = 0
+    elif t == "one":
+        v = 1
+    elif t == "big":
+        v = draw(st.integers(31, 60))
+    else:
+        v = ["n", draw(st.sampled_from([-1, 0, 1, -2]))]
+    return {"v": v, "as": draw(st.sampled_from(AS_KINDS)), "split": draw(st.integers(0, 5))}
 
 
 def base_cases(shapes=SHAPES, apis=("limit_offset", "offset_limit", "slice", "reset"), rows=True):
@@ -76,7 +86,7 @@ def base_cases(shapes=SHAPES, apis=("limit_offset", "offset_limit", "slice", "re
             "pk_desc": st.booleans(),
             "k": st.integers(0, 3),
             "limit": _lo_spec(),
-            "offset": _lo_spec(),
+            "offset": _lo_spec(True),
             "api": st.sampled_from(list(apis)),
         }
     )
@@ -205,6 +215,10 @@ def apply_limit(sa, stmt, case, n, params, embed=False):
         start = off or 0
         stop = start + (lim if lim is not None else 7)
         return stmt.slice(start, stop), start, stop - start
+    if api == "slice_rev":
+        # pinned-only (known finding): slice(start, stop) with stop < start is documented to behave like range(): empty
+        start = (off or 0) + 2
+        return stmt.slice(start, start - 1), start, 0
     lc = None if lim is None else clause_for(sa, case["limit"], lim, "lim_p", params, embed)
     oc = None if off is None else clause_for(sa, case["offset"], off, "off_p", params, embed)
     if api == "fetch":
@@ -281,6 +295,8 @@ def check_live(case, ctx):
         w.close()
     ctx.note(case, nontrivial(n, off, lim, flags), classes=classes_for(case, n, off, lim, flags))
     want = py_slice(full, off, lim)
+    if got != want and case["api"] == "slice_rev":
+        raise Violation("C18/live/slice-stop-before-start", f"slice({off}, {off - 1}) is documented to behave like range() (empty) but rendered a negative LIMIT and returned {len(got)} rows", observed=got, expected=want)
     if got != want:
         kind = "order" if _key(got) == _key(want) else "rows"
         raise Violation(f"C18/live/{kind}/{_sig_part(case, off, lim)}", f"limit={lim} offset={off} over {n} rows ({case['shape']}, api={case['api']}): got {len(got)} rows {got[:6]} expected {len(want)} rows {want[:6]}", observed=got, expected=want)
